@@ -2,6 +2,7 @@
 from __future__ import annotations
 
 import ast
+import os
 from typing import Any, List, Sequence
 
 import z3
@@ -502,6 +503,8 @@ def call_contract(ex: Executor, node, st, target: str, extra_first: List[SV] = (
         # name the argument values: a contract's quantifier patterns must not contain the
         # if-then-else terms produced by merged evaluation paths
         for pname, t in list(bind.items()):
+            if os.environ.get("PYVC_NO_NAMING"):
+                break
             if z3.is_expr(t) and not (z3.is_const(t) and t.decl().kind() == z3.Z3_OP_UNINTERPRETED):
                 a = ex.fresh("arg_" + pname, t.sort())
                 s.assume(a == t)
@@ -592,7 +595,7 @@ class CalleeCtx(SpecCtx):
     def _pre(self, name):
         self.ex.touch_heap(name)
         arr = self.pre_heap.get(name, T.heap0(name))
-        if z3.is_const(arr) and arr.decl().kind() == z3.Z3_OP_UNINTERPRETED:
+        if (z3.is_const(arr) and arr.decl().kind() == z3.Z3_OP_UNINTERPRETED) or os.environ.get("PYVC_NO_NAMING"):
             return arr
         # the heap at the call is a compound term (stores, if-then-else of merged paths): name it, so
         # that the callee's quantifier patterns over its entry heap are legal triggers
@@ -1046,7 +1049,7 @@ def _comp_outcomes(ex, s, u, dom, ordered, ok, excs, build):
 def eval_listcomp(ex, node, st):
     s, u, dom, ordered, n, ok, vals, excs = _comp_eval(ex, node, st, [node.elt])
     seq, filtered = _comp_eval.seq, _comp_eval.filtered
-    if not ordered and seq is not None and filtered:
+    if not ordered and seq is not None and filtered and getattr(ex.contract, "ordered_filter", False):
         # filtered comprehension over a sequence: the kept elements IN SOURCE ORDER.  pos maps result
         # positions to source positions (strictly increasing, onto the kept positions), inv is its inverse
         lo, nn = seq
@@ -1064,6 +1067,11 @@ def eval_listcomp(ex, node, st):
             g.assume(T.forall([k1], z3.Implies(z3.And(k1 >= 0, k1 < ln), z3.And(dom(pos(k1)), arr[k1] == val(pos(k1)))), patterns=[arr[k1]]))
             g.assume(T.forall([k1, k2], z3.Implies(z3.And(k1 >= 0, k1 < k2, k2 < ln), pos(k1) < pos(k2)), patterns=[z3.MultiPattern(pos(k1), pos(k2))]))
             g.assume(T.forall([jj], z3.Implies(dom(jj), z3.And(inv(jj) >= 0, inv(jj) < ln, pos(inv(jj)) == jj)), patterns=[inv(jj)]))
+            # the membership reading of the same list (a consequence of the above, stated for the triggers):
+            # every kept element occurs, nothing else occurs
+            ub = z3.Const("cu", u.sort())
+            g.assume(T.forall([ub], z3.Implies(dom(ub), z3.Exists([jj], z3.And(jj >= 0, jj < ln, arr[jj] == val(ub))))))
+            g.assume(T.forall([jj], z3.Implies(z3.And(jj >= 0, jj < ln), z3.Exists([ub], z3.And(dom(ub), arr[jj] == val(ub)))), patterns=[arr[jj]]))
             o = ex.new_list(g, ln, arr, hint="list")
             # per path: the sidecar's proof steps may name the index maps of the latest filtered list
             g.ghost["last_filtered"] = (o, pos, inv, dom)
@@ -1682,7 +1690,10 @@ def eval_setcomp(ex, node, st):
         ub = z3.Const("cu", u.sort())
         x = z3.Const("cx", Val)
         ex_ = lambda t: z3.substitute(vals[0], (u, t))  # noqa: E731
-        g.assume(T.forall([ub], z3.Implies(dom(ub), has[ex_(ub)]), patterns=[has[ex_(ub)]]))
+        if getattr(ex.contract, "setcomp_trigger", False):
+            g.assume(T.forall([ub], z3.Implies(dom(ub), has[ex_(ub)]), patterns=[has[ex_(ub)]]))
+        else:
+            g.assume(T.forall([ub], z3.Implies(dom(ub), has[ex_(ub)])))
         g.assume(T.forall([x], z3.Implies(has[x], z3.Exists([ub], z3.And(dom(ub), x == ex_(ub)))), patterns=[has[x]]))
         ln = ex.fresh("scl", T.I)
         g.assume(ln >= 0, (ln == 0) == z3.Not(z3.Exists([ub], dom(ub))))
